@@ -159,6 +159,7 @@ func (e Float64Engine) FMAScalar(a Tensor, x interface{}, y Tensor) (retVal Tens
 	if useIter {
 		err = execution.MulIterIncrVSF64(dataTensor.Float64s(), scalar, dataReuse.Float64s(), ait, iit)
 		retVal = reuse
+		return // the iterator kernel has done the work: falling through would add a·x a second time, over raw storage
 	}
 
 	execution.MulIncrVSF64(dataTensor.Float64s(), scalar, dataReuse.Float64s())
@@ -223,6 +224,15 @@ func (e Float64Engine) Inner(a, b Tensor) (retVal float64, err error) {
 	}
 	if BD, ok = b.(*Dense); !ok {
 		return 0, errors.Errorf("b is not a *Dense")
+	}
+
+	if AD.RequiresIterator() || BD.RequiresIterator() {
+		// the dot kernel below walks raw storage: non-contiguous views go through the default engine
+		ret, ierr := e.StdEng.Inner(a, b)
+		if ierr != nil {
+			return 0, ierr
+		}
+		return ret.(float64), nil
 	}
 
 	A = AD.Float64s()
